@@ -37,6 +37,14 @@ def step (line : String) : String :=
     match hexOr p, hexOr r with
     | some pb, some rb => "spec=" ++ b01 (specMatchDns pb rb) ++ " ossl=" ++ b01 (osslMatchDns pb rb)
     | _, _ => "bad-op"
+  | ["qhs", ins, ssni, csni, addr, cls, chain, sans] =>
+    let clsP : Option (Option GName) := if cls = "x" then some none else (parseG cls).map some
+    match parseBool ins, parseOptHex ssni, parseOptHex csni, hexOr addr, clsP, parseBool chain, parseList sans with
+    | some i, some ss, some cs, some a, some c, some ch, some sl =>
+      let cfg : Cfg := ⟨i, ss, cs, a⟩
+      match outcomeT .quic (fun _ => c) Gen.C15.defaultHostflags cfg ch sl with
+      | .established => "established" | .failed => "failed" | .hookRaised => "hookRaised"
+    | _, _, _, _, _, _, _ => "bad-op"
   | ["hs", ins, ssni, csni, addr, cls, chain, sans] =>
     let clsP : Option (Option GName) := if cls = "x" then some none else (parseG cls).map some
     match parseBool ins, parseOptHex ssni, parseOptHex csni, hexOr addr, clsP, parseBool chain, parseList sans with
